@@ -87,13 +87,30 @@ def get_base(t: Type[Any]) -> Dict[str, Any]:
     raise TypeError(f"Got unexpected type: {t}")
 
 
+def _add_predicate_schema(
+    ret: Dict[str, Serializable], pred_schema: Dict[str, Serializable]
+) -> None:
+    """
+    Adds the keywords of one predicate to the schema of its validator. A keyword that is
+    already set (two predicates that both produce "pattern", for instance) is not
+    overwritten, since that would silently drop a constraint: such a predicate is
+    combined with the others under "allOf" instead.
+    """
+    if any(keyword in ret for keyword in pred_schema):
+        all_of = ret.setdefault("allOf", [])
+        assert isinstance(all_of, list)
+        all_of.append(pred_schema)
+    else:
+        ret.update(pred_schema)
+
+
 def string_schema(
     to_schema_fn: ValidatorToSchema, validator: StringValidator
 ) -> Dict[str, Serializable]:
     ret: Dict[str, Serializable] = get_base(str)
 
     for pred in list(validator.predicates) + (validator.predicates_async or []):
-        ret.update(to_schema_fn(pred))
+        _add_predicate_schema(ret, to_schema_fn(pred))
 
     return ret
 
@@ -103,7 +120,7 @@ def bytes_schema(
 ) -> Dict[str, Serializable]:
     ret: Dict[str, Serializable] = get_base(bytes)
     for pred in list(validator.predicates) + (validator.predicates_async or []):
-        ret.update(to_schema_fn(pred))
+        _add_predicate_schema(ret, to_schema_fn(pred))
 
     return ret
 
@@ -113,7 +130,7 @@ def integer_schema(
 ) -> Dict[str, Serializable]:
     ret: Dict[str, Serializable] = get_base(int)
     for pred in list(validator.predicates) + (validator.predicates_async or []):
-        ret.update(to_schema_fn(pred))
+        _add_predicate_schema(ret, to_schema_fn(pred))
 
     return ret
 
@@ -123,7 +140,7 @@ def decimal_schema(
 ) -> Dict[str, Serializable]:
     ret: Dict[str, Serializable] = get_base(Decimal)
     for pred in list(validator.predicates) + (validator.predicates_async or []):
-        ret.update(to_schema_fn(pred))
+        _add_predicate_schema(ret, to_schema_fn(pred))
     return ret
 
 
@@ -132,7 +149,7 @@ def float_schema(
 ) -> Dict[str, Serializable]:
     ret: Dict[str, Serializable] = get_base(float)
     for pred in list(validator.predicates) + (validator.predicates_async or []):
-        ret.update(to_schema_fn(pred))
+        _add_predicate_schema(ret, to_schema_fn(pred))
     return ret
 
 
@@ -141,7 +158,7 @@ def date_schema(
 ) -> Dict[str, Serializable]:
     ret: Dict[str, Serializable] = get_base(date)
     for pred in list(validator.predicates) + (validator.predicates_async or []):
-        ret.update(to_schema_fn(pred))
+        _add_predicate_schema(ret, to_schema_fn(pred))
     return ret
 
 
@@ -150,7 +167,7 @@ def datetime_schema(
 ) -> Dict[str, Serializable]:
     ret: Dict[str, Serializable] = get_base(datetime)
     for pred in list(validator.predicates) + (validator.predicates_async or []):
-        ret.update(to_schema_fn(pred))
+        _add_predicate_schema(ret, to_schema_fn(pred))
     return ret
 
 
@@ -167,7 +184,7 @@ def boolean_schema(
 ) -> Dict[str, Serializable]:
     ret: Dict[str, Serializable] = get_base(bool)
     for pred in list(validator.predicates) + (validator.predicates_async or []):
-        ret.update(to_schema_fn(pred))
+        _add_predicate_schema(ret, to_schema_fn(pred))
     return ret
 
 
@@ -176,7 +193,7 @@ def uuid_schema(
 ) -> Dict[str, Serializable]:
     ret: Dict[str, Serializable] = get_base(UUID)
     for pred in list(validator.predicates) + (validator.predicates_async or []):
-        ret.update(to_schema_fn(pred))
+        _add_predicate_schema(ret, to_schema_fn(pred))
     return ret
 
 
@@ -190,7 +207,7 @@ def array_of_schema(
     }
 
     for pred in (validator.predicates or []) + (validator.predicates_async or []):
-        ret.update(to_schema_fn(pred))
+        _add_predicate_schema(ret, to_schema_fn(pred))
 
     return ret
 
@@ -292,7 +309,7 @@ def map_of_schema(
     }
 
     for pred in (validator.predicates or []) + (validator.predicates_async or []):
-        ret.update(to_schema_fn(pred))
+        _add_predicate_schema(ret, to_schema_fn(pred))
 
     return ret
 
